@@ -1,3 +1,5 @@
+import WS.Lemmas.CutProgramFull
+import WS.Lemmas.ProgramAnyLimit
 import WS.Lemmas.CutProgram
 import WS.Lemmas.CutAnyLimit
 import WS.Lemmas.ZCut
